@@ -64,6 +64,8 @@ pub struct FaultPlan {
     pub skip_locks: bool,
     /// for atomic_write: take effect and then report the error
     pub after_effect: bool,
+    /// only operations on lock files are failing candidates
+    pub only_locks: bool,
 }
 
 thread_local! {
@@ -94,6 +96,8 @@ pub struct State {
     pub snaps: Option<Vec<(u64, Fs)>>,
     /// snapshot only every n-th `write` operation (all other operations always)
     pub snap_write_stride: u64,
+    /// when Some: (k, operation, path class) of every counted operation
+    pub oplog: Option<Vec<(u64, &'static str, String)>>,
 }
 
 #[derive(Clone)]
@@ -127,6 +131,7 @@ impl SimDir {
                 max_write: 0,
                 snaps: None,
                 snap_write_stride: 1,
+                oplog: None,
             })),
             tracer,
             gate: Arc::new(Mutex::new(None)),
@@ -193,8 +198,24 @@ impl SimDir {
 
     /// Counts the operation and decides whether it fails. Must be called with the state lock.
     fn fault_here(&self, g: &mut State, op: &'static str, path: &Path) -> bool {
+        if THREAD_QUIET.with(|q| q.get()) {
+            // the harness's own read-back: neither counted nor failed
+            return false;
+        }
         g.opcount += 1;
         let k = g.opcount;
+        if g.oplog.is_some() {
+            let name = path.to_string_lossy().to_string();
+            let class = if is_lock(path) {
+                "lock".to_string()
+            } else if name.len() > 33 && name.as_bytes()[32] == b'.' {
+                let ext = &name[33..];
+                if ext.ends_with(".del") { "del".to_string() } else { ext.to_string() }
+            } else {
+                name
+            };
+            g.oplog.as_mut().unwrap().push((k, op, class));
+        }
         let f = &g.fault;
         if f.k == 0 || k < f.k {
             return false;
@@ -206,6 +227,9 @@ impl SimDir {
             return false;
         }
         if f.skip_locks && is_lock(path) {
+            return false;
+        }
+        if f.only_locks && !is_lock(path) {
             return false;
         }
         if !f.permanent && k != f.k {
